@@ -14,6 +14,9 @@
 //        critical section (sig `u`).  Quiescent observations after the join (sweep, dump, blocks, reset) have tid `-`.
 //   P <tid> <seq> <sig>              per-thread program order with the result the CALLER saw (only with the hook)
 //   end spans=<n> errors=<n> final_allocations=<n> used=<n>
+// Second op:  nomemfd <threads> <iterations>   threads that each create their OWN dual-mapped JitAllocator while the kernel
+//   "does not know" memfd_create (the harness is linked with -Wl,--wrap=syscall and answers ENOSYS): the first use of the
+//   fallback path by several allocators at once (finding C11-1: `memfd_create_not_supported`).  -> `nomemfd errors=<n> blocks=<n>`
 //
 // With -DC11_H2 the TU includes jitallocator.cpp (private block state for the callback and the final dump; the archive member is
 // then not pulled in).  The callback relies on the allocator's own lock only - it adds no synchronisation of its own, so TSan
@@ -26,6 +29,9 @@
 #endif
 #include <algorithm>
 #include <atomic>
+#include <cerrno>
+#include <cstdarg>
+#include <sys/syscall.h>
 #include <map>
 #include <random>
 #include <sched.h>
@@ -538,9 +544,60 @@ static void quiescent(const std::string& op, const std::string& ans) {
 #endif // C11_H2
 
 // ---------------------------------------------------------------------------------------------------------------------
+// memfd_create answering ENOSYS (linked with -Wl,--wrap=syscall)
+static int g_fail_memfd = 0;        // set before the threads are started
+extern "C" long __real_syscall(long n, ...);
+extern "C" long __wrap_syscall(long n, ...) {
+  va_list ap;
+  va_start(ap, n);
+  long a[6];
+  for (int i = 0; i < 6; i++) a[i] = va_arg(ap, long);
+  va_end(ap);
+#ifdef __NR_memfd_create
+  if (n == __NR_memfd_create && g_fail_memfd) { errno = ENOSYS; return -1; }
+#endif
+  return __real_syscall(n, a[0], a[1], a[2], a[3], a[4], a[5]);
+}
+
+static std::string step_nomemfd(const std::vector<std::string>& w) {
+  uint64_t nthreads, iters;
+  if (w.size() != 3 || !vh::parse_u64(w[1], nthreads) || !vh::parse_u64(w[2], iters) || nthreads < 1 || nthreads > 64) return "bad-op";
+  { JitRuntime warm; (void)warm; }                 // host information (CpuInfo::host, VirtMem::info) initialised on one thread first
+  g_fail_memfd = 1;
+  std::atomic<uint32_t> ready{0};
+  std::vector<uint64_t> errors(nthreads, 0), blocks(nthreads, 0);
+  std::vector<std::thread> ths;
+  for (uint32_t tid = 0; tid < nthreads; tid++) {
+    ths.emplace_back([&, tid]() {
+      JitAllocator::CreateParams params;
+      params.options = JitAllocatorOptions::kUseDualMapping;
+      for (uint64_t i = 0; i < iters; i++) {
+        JitAllocator a(&params);
+        if (i == 0) {                                          // the very first block of every thread's allocator is mapped at the same moment
+          ready.fetch_add(1);
+          while (ready.load() < nthreads) {}
+        }
+        JitAllocator::Span sp;
+        if (a.alloc(Out(sp), 100 + tid) != Error::kOk) { errors[tid]++; continue; }
+        if (sp.rx() == sp.rw()) errors[tid] += 1000;          // not dual mapped
+        a.write(sp, 0, std::string(sp.size(), char(tid + 1)).data(), sp.size());
+        if (static_cast<const uint8_t*>(sp.rx())[sp.size() - 1] != uint8_t(tid + 1)) errors[tid] += 1000000;
+        blocks[tid] += a.statistics().block_count();
+        if (a.release(sp.rx()) != Error::kOk) errors[tid]++;
+      }
+    });
+  }
+  for (auto& t : ths) t.join();
+  g_fail_memfd = 0;
+  uint64_t e = 0, b = 0;
+  for (auto x : errors) e += x;
+  for (auto x : blocks) b += x;
+  return "nomemfd errors=" + std::to_string(e) + " blocks=" + std::to_string(b);
+}
 
 static std::string step(const std::string& line) {
   auto w = vh::words(line);
+  if (!w.empty() && w[0] == "nomemfd") return step_nomemfd(w);
   uint64_t nthreads, nops, seed, opts, gran, ylevel = 0;
   if ((w.size() != 6 && w.size() != 7) || w[0] != "run" || !vh::parse_u64(w[1], nthreads) || !vh::parse_u64(w[2], nops) || !vh::parse_u64(w[3], seed) ||
       !vh::parse_hex(w[4], opts) || !vh::parse_u64(w[5], gran) || nthreads < 1 || nthreads > 64) return "bad-op";
